@@ -32,7 +32,7 @@ def main():
     except ImportError as e:
         print(f"ANALYSIS-ERROR property={a.prop}: no check module ({e})")
         return 2
-    rc = report.run_check(a.prop, a.tier, lambda ctx: mod.check(ctx), seed)
+    rc = report.run_check(a.prop, a.tier, lambda ctx: report.full_check(mod, ctx), seed)
     if rc == 0 and a.tier == "thorough" and not a.no_selftest and not a.repo:
         from pdv import selftest
         rc = selftest.run(a.prop, seed)
